@@ -208,7 +208,8 @@ class StaticUseDep(packages.PackageRestriction):
     def __init__(self, false_use, true_use):
         v = []
         if false_use:
-            v.append(values.ContainmentMatch(false_use, negate=True, match_all=True))
+            # every listed flag must be disabled: none of them may be present
+            v.append(values.ContainmentMatch(false_use, negate=True))
         if true_use:
             v.append(values.ContainmentMatch(true_use, match_all=True))
 
@@ -231,7 +232,9 @@ class _UseDepDefaultContainment(values.ContainmentMatch, caching=False):
 
     def __init__(self, if_missing: bool, vals, negate=False):
         self.if_missing = bool(if_missing)
-        super().__init__(vals, negate=negate, match_all=True)
+        # enabled flags must all be present; disabled flags must all be absent
+        # (a negated all-match would only require one of them to be absent)
+        super().__init__(vals, negate=negate, match_all=not negate)
 
     def match(self, val):
         reduced_vals = self.vals
